@@ -22,7 +22,7 @@ use vh::exercise::{exercise, Observer, OPS};
 use vh::seeds::{self, Layout};
 use vh::*;
 
-const WALL_MS: u64 = 10_000;
+const WALL_MS: u64 = 60_000;
 const HARD_CAP: usize = 512 << 20;
 
 fn budget(len: usize) -> usize {
@@ -530,7 +530,7 @@ fn main() {
         let (n_trunc, g_trunc) = trunc_gen(Arc::new(all.clone()));
         let (n_fanin, g_fanin) = fanin_gen();
         let (n_tiny, g_tiny) = tiny_gen(if thorough { 3 } else { 2 });
-        let pairs = Arc::new(if thorough { Pairs::new(&synth, 40) } else { Pairs::new(&[], 0) });
+        let pairs = Arc::new(if thorough { Pairs::new(&synth, 64) } else { Pairs::new(&[], 0) });
 
         let lens = [tabs.total, n_trunc, n_fanin, n_tiny, ctabs.total, pairs.total];
         let mut bases = vec![];
@@ -544,13 +544,13 @@ fn main() {
         let mut def = CheckDef::new(
             "C01",
             "fault_enumeration",
-            "every case = one byte string built from a structured seed by an enumerated corruption (one deviation: every even offset x width {2,4,8} x value menu {0,1,len-1,len,len+1,2^31,2^32-1,16,0xffff, own offset, own offset-4/-8/-16, start of enclosing stream, directory rva, every directory rva and rva+size}, no-ops removed; every truncation; fan-in shapes; tiny stream contents; thorough: two deviations on structural words), run through the full consumer driver (open, all 24 stream types, all queries, all prints) under per-operation panic guards, a 10 s wall budget, a 512 MiB hard cap and the allocation budget 64 KiB + 64*len + len^2/4 on peak live bytes above the case baseline. distinct_nontrivial = distinct (per-stream outcome vector, thread/module/context shape) among cases where Minidump::read returned Ok.",
+            "every case = one byte string built from a structured seed by an enumerated corruption (one deviation: every even offset x width {2,4,8} x value menu {0,1,len-1,len,len+1,2^31,2^32-1,16,0xffff, own offset, own offset-4/-8/-16, start of enclosing stream, directory rva, every directory rva and rva+size}, no-ops removed; every truncation; fan-in shapes; tiny stream contents; thorough: two deviations on structural words), run through the full consumer driver (open, all 24 stream types, all queries, all prints) under per-operation panic guards, a 60 s wall budget (backstop), a 512 MiB hard cap and the allocation budget 64 KiB + 64*len + len^2/4 on peak live bytes above the case baseline. distinct_nontrivial = distinct (per-stream outcome vector, thread/module/context shape) among cases where Minidump::read returned Ok.",
         );
         def.assumptions = vec![
             "inputs are corruptions of ~70 structured seeds and all very short strings; byte strings needing 3+ coordinated corruptions far from any seed are not reached".into(),
             "allocation is observed through the global allocator of the worker process (peak of live bytes above the baseline taken after the input buffer is built); the input buffer itself is not charged".into(),
             "printing goes to io::sink(): formatting code runs, but write errors are not injected".into(),
-            "hang = one case (all operations on one input) exceeding 10 s wall in a worker (generous: the machine may be loaded; a legitimate case takes < 50 ms); the property's 'always terminates' is checked against this budget only".into(),
+            "hang = one case (all operations on one input) exceeding 60 s wall in a worker (deliberately generous: 10 s budgets produced spurious hang verdicts on the 119 KB corpus file while the shared machine ran at load 60; a legitimate case takes < 50 ms); the property's 'always terminates' is checked against this budget only".into(),
             "stack-overflow style process death would be reported as crash@<operation>; third-party crates (scroll, range-map, encoding_rs, procfs-core, time) are exercised only through the reader's call sites".into(),
         ];
         def.extra.insert("wall_budget_ms".into(), json!(WALL_MS));
@@ -561,7 +561,7 @@ fn main() {
         def.extra.insert("fanin".into(), json!({"kinds": seeds::FANIN_KINDS, "k": KS, "s": KS, "k2": "KS for crashpad kinds, else 1", "endians": 2}));
         def.extra.insert("operation_map".into(), json!(if ops.ptr.is_null() { "unavailable: hang/alloc signatures name <seed>:<region>" } else { "memfd shared with workers: hang/alloc signatures name the operation" }));
         if thorough {
-            def.extra.insert("mut2".into(), json!({"structural_words": "header stream_count and directory rva, every directory word, every 4-aligned u32 outside the directory with 1 <= value <= len; first 40 per seed", "values_per_word": ["0", "1", "len", "0xffffffff", "own offset", "other word's offset", "start of enclosing stream"]}));
+            def.extra.insert("mut2".into(), json!({"structural_words": "header stream_count and directory rva, every directory word, every 4-aligned u32 outside the directory with 1 <= value <= len; first 64 per seed", "values_per_word": ["0", "1", "len", "0xffffffff", "own offset", "other word's offset", "start of enclosing stream"]}));
         }
 
         // harness self-check (parent only): the unmutated seeds together must get every stream type parsed
